@@ -51,6 +51,12 @@ class Ctx:
         self.violations.append((payload, no_input))
 
     def known_finding(self, msg):
+        """msg = '<finding id>: <what fails>'; the id must be listed (open) in known_findings.json for
+        this property - the file is never extended at run time, an unlisted class is a violation"""
+        fid = msg.split(":")[0].strip()
+        if fid not in [f.get("id") for f in rqlib.known_findings(self.prop)]:
+            self.violation({"kind": "unlisted-finding", "finding": msg}, no_input=False)
+            return
         if msg not in self.known:
             self.known.append(msg)
 
